@@ -232,7 +232,7 @@ fn json_case(out: &mut Out, env: &TokEnv, kind: &str, lo: usize, hi: Option<usiz
 /// object / array size bounds in the presence of declared members: `req` required and `optn` optional
 /// declared properties (all present in the document, in declaration order) followed by additional ones;
 /// for arrays `req` prefixItems followed by further items.  The size counted is the total.
-fn json_declared_case(out: &mut Out, env: &TokEnv, array: bool, req: usize, optn: usize, lo: usize, hi: Option<usize>) {
+fn json_declared_case(out: &mut Out, env: &TokEnv, array: bool, closed: bool, req: usize, optn: usize, lo: usize, hi: Option<usize>) {
     let mut schema = if array {
         let pre: Vec<serde_json::Value> = (0..req).map(|_| serde_json::json!({"const": 1})).collect();
         serde_json::json!({"type": "array", "prefixItems": pre, "items": {"const": 1}})
@@ -245,7 +245,11 @@ fn json_declared_case(out: &mut Out, env: &TokEnv, array: bool, req: usize, optn
             props.insert(format!("o{i}"), serde_json::json!({"const": 1}));
         }
         let required: Vec<String> = (0..req).map(|i| format!("r{i}")).collect();
-        serde_json::json!({"type": "object", "properties": props, "required": required, "additionalProperties": {"const": 1}})
+        if closed {
+            serde_json::json!({"type": "object", "properties": props, "required": required, "additionalProperties": false})
+        } else {
+            serde_json::json!({"type": "object", "properties": props, "required": required, "additionalProperties": {"const": 1}})
+        }
     };
     let (kmin, kmax) = if array { ("minItems", "maxItems") } else { ("minProperties", "maxProperties") };
     schema[kmin] = serde_json::json!(lo);
@@ -254,7 +258,7 @@ fn json_declared_case(out: &mut Out, env: &TokEnv, array: bool, req: usize, optn
     }
     let max = hi.unwrap_or(lo.max(req + optn) + 3) + 3;
     let floor = if array { 0 } else { req };
-    let want: Vec<usize> = (0..=max).filter(|&c| c >= floor && c >= lo && hi.map(|h| c <= h).unwrap_or(true)).collect();
+    let want: Vec<usize> = (0..=max).filter(|&c| c >= floor && c >= lo && hi.map(|h| c <= h).unwrap_or(true) && (!closed || c == req)).collect();
     let mut m = match matcher_for(env, TopLevelGrammar::from_json_schema(schema.clone())) {
         Ok(m) => m,
         Err(_) => {
@@ -263,6 +267,13 @@ fn json_declared_case(out: &mut Out, env: &TokEnv, array: bool, req: usize, optn
                 out.violation(&format!("JSON size bounds {lo}..{hi:?} with {req} required members rejected although sizes {want:?} satisfy them"), schema.to_string());
             }
             out.count("rejected_schemas", 1);
+            if !array && optn == 0 {
+                out.case(
+                    tagged("objsizes", vec![int(lo), int(hi.map(|h| h as i64).unwrap_or(-1)), int(max), int(req), boolean(!closed)]),
+                    tagged("err", vec![]),
+                    true,
+                );
+            }
             return;
         }
     };
@@ -304,11 +315,20 @@ fn json_declared_case(out: &mut Out, env: &TokEnv, array: bool, req: usize, optn
             schema.to_string(),
         );
     }
-    out.case(
-        tagged("range", vec![int(lo.max(floor)), int(hi.map(|h| h as i64).unwrap_or(-1)), int(max)]),
-        tagged("ok", vec![ints(&acc)]),
-        true,
-    );
+    if array || optn > 0 {
+        out.case(
+            tagged("range", vec![int(lo.max(floor)), int(hi.map(|h| h as i64).unwrap_or(-1)), int(max)]),
+            tagged("ok", vec![ints(&acc)]),
+            true,
+        );
+    } else {
+        // the model of the count arithmetic (coq/ObjCount.v): r required members, open tail
+        out.case(
+            tagged("objsizes", vec![int(lo), int(hi.map(|h| h as i64).unwrap_or(-1)), int(max), int(req), boolean(!closed)]),
+            tagged("ok", vec![ints(&acc)]),
+            true,
+        );
+    }
     out.count(if array { "json_declared_items" } else { "json_declared_props" }, 1);
 }
 
@@ -429,16 +449,22 @@ pub fn run(_rng: &mut Rng, out: &mut Out, tier: &str) {
         for optn in 0..=2usize {
             for hi in 0..=dt {
                 for lo in 0..=hi {
-                    json_declared_case(out, &env, false, req, optn, lo, Some(hi));
+                    json_declared_case(out, &env, false, false, req, optn, lo, Some(hi));
                     if optn == 0 {
-                        json_declared_case(out, &env, true, req, 0, lo, Some(hi));
+                        json_declared_case(out, &env, false, true, req, 0, lo, Some(hi));
+                    }
+                    if optn == 0 {
+                        json_declared_case(out, &env, true, false, req, 0, lo, Some(hi));
                     }
                 }
             }
             for lo in 0..=dt {
-                json_declared_case(out, &env, false, req, optn, lo, None);
+                json_declared_case(out, &env, false, false, req, optn, lo, None);
                 if optn == 0 {
-                    json_declared_case(out, &env, true, req, 0, lo, None);
+                    json_declared_case(out, &env, false, true, req, 0, lo, None);
+                }
+                if optn == 0 {
+                    json_declared_case(out, &env, true, false, req, 0, lo, None);
                 }
             }
         }
